@@ -455,6 +455,9 @@ func init() {
 				// power loss under mmap (the unsynced tail of a mapped file is cut), and a SECOND crash after the
 				// recovered database has written on
 				add("mmap-powerloss-k2", merge(base, p("k", 2, "ops", opPut|opDelete|opSync, "io", 1, "after", 1, "dfs_lo", 60, "dfs_hi", 100)))
+				// REAL 32 KiB blocks, mmap granule 8192, 4096-byte pages: a 5000-byte value that is zero except for three
+				// symbolic bytes (its last pages look like never-written space), process death at every point
+				js = append(js, JobSpec{Name: "mmap-real-pages-zero-filled-value-process-death", Harness: "root", Func: "verifHarnessCrash", Params: merge(base, p("preput", 1, "k", 1, "ops", opPut, "io", 1, "powerloss", 0, "vlens", 3, "vbig", 5000, "sparse", 2, "after", 1)), Scale: map[string]string{"fio/mmap.go:blockSize": "8192"}, PageSize: 4096, ReplayRestore: true})
 				// crash under one back-end, recovery (and further life) under the other
 				add("std-crash-recover-mmap-k2", merge(base, p("k", 2, "ops", opPut|opDelete|opSync, "io", 0, "r_io", 2, "after", 1, "dfs_lo", 60, "dfs_hi", 100)))
 				add("mmap-crash-recover-std-k2", merge(base, p("k", 2, "ops", opPut|opDelete|opSync, "io", 1, "r_io", 1, "after", 1, "dfs_lo", 60, "dfs_hi", 100)))
